@@ -132,11 +132,18 @@ def run_case(case, ctx):
         M = rs.randint(0 if idt == "uint8" else -hi + 1, hi, size=(d1, d2)).astype(idt)
         cls = cls + "+" + idt
         ctx.count("narrow_integer_matrices")
+    cplx = False
+    if method in ("truncated_svd", "randomized_svd", "callable", "direct_truncated") and np.asarray(M).dtype == np.float64 and unit == 1.0 and rs.rand() < 0.15:
+        # complex matrices (unfoldings of complex tensors): U and V unitary, the product still the matrix, the deciding entries real positive
+        M = M + 1j * make_matrix(rs, gen.choice(rs, ["generic", "generic", "integer"]), d1, d2, dt)
+        cplx = True
+        cls = cls + "+complex"
+        ctx.count("complex_matrices")
     mx, mn = max(d1, d2), min(d1, d2)
     n_req = gen.choice(rs, [None] + list(range(1, mx + 3)))
     flip = bool(rs.rand() < 0.8)
     ubased = bool(rs.rand() < 0.5)
-    nonneg = gen.choice(rs, [None, None, None, None, True, "nndsvd", "nndsvda"]) if method != "direct_truncated" else None
+    nonneg = gen.choice(rs, [None, None, None, None, True, "nndsvd", "nndsvda"]) if (method != "direct_truncated" and not cplx) else None
     seed = int(rs.randint(0, 2 ** 31 - 1))
     desc = {"method": method, "shape": [d1, d2], "class": cls, "dtype": dt, "n_eigenvecs": n_req, "flip_sign": flip,
             "u_based": ubased, "non_negative": nonneg, "unit": unit}
@@ -166,7 +173,7 @@ def run_case(case, ctx):
         return Qk, wv[:k], Qk.T
 
     use_eigh = False
-    if method == "callable" and d1 == d2 and np.dtype(dt) == np.float64 and nonneg is None and rs.rand() < 0.5:
+    if method == "callable" and d1 == d2 and np.dtype(dt) == np.float64 and nonneg is None and not cplx and rs.rand() < 0.5:
         G_ = ref.hp(M) @ ref.hp(M).T
         M = np.asarray(G_ / (np.max(np.abs(G_)) or 1.0), dtype=dt)
         use_eigh = True
@@ -246,8 +253,8 @@ def run_case(case, ctx):
     # ---- orthonormality ---------------------------------------------------------------------------
     ctx.count("clause/orthonormal")
     Uh, Vh = ref.hp(U), ref.hp(V)
-    GU = Uh.T @ Uh - np.eye(U.shape[1])
-    GV = Vh @ Vh.T - np.eye(V.shape[0])
+    GU = Uh.conj().T @ Uh - np.eye(U.shape[1])
+    GV = Vh @ Vh.conj().T - np.eye(V.shape[0])
     if not sym:
         otol = 200 * mx * eps * (50 if rnd else 1)
         if U.size and np.max(np.abs(GU)) > otol:
@@ -294,7 +301,7 @@ def run_case(case, ctx):
     if sym:
         btol = max(btol, 2e3 * np.sqrt(eps) * max(1.0, smax) ** 2)
     if abs(err_sq - tail_sq) > btol:
-        viol("best-approx", "any", "||M-USV||^2=%r but the discarded singular values sum to %r (tol %.3g)" % (err_sq, tail_sq, btol))
+        viol("best-approx", "complex" if cplx else "any", "||M-USV||^2=%r but the discarded singular values sum to %r (tol %.3g)" % (err_sq, tail_sq, btol))
 
     # ---- sign convention ---------------------------------------------------------------------------------
     if flip:
@@ -308,6 +315,11 @@ def run_case(case, ctx):
                 continue
             a = np.abs(v)
             top = a >= a.max() * (1 - 1e-6) - 1e-300
+            if cplx:
+                if a.max() > 0 and not np.any((v[top].real > 0) & (np.abs(v[top].imag) <= 1e-9 * a.max())):
+                    viol("sign", ("U-based" if ubased else "V-based") + "+complex", "deciding vector %d has no largest-magnitude entry that is real and positive: %r" % (j, v))
+                    break
+                continue
             if a.max() > 0 and not np.any(v[top] > 0):
                 viol("sign", "U-based" if ubased else "V-based", "deciding vector %d has its largest-magnitude entry negative: %r" % (j, v))
                 break
